@@ -366,3 +366,4 @@ H("C16", "html/document", "VxH_C16_nested_order", reach=["laid-out", "drawn"], b
 H("C17", "svg", "VxH_C17_svg_apply_transform", mode="real", reach=["applied", "invertible", "singular"], bounds="SVG transform lists matrix(a b c d e f), translate scale, scale translate with every number a symbolic real in [-10,10]")
 for _p in ("C01", "C10"):
     H(_p, "html/layout", "VxH_C01_floats", mode="real", reach=["laid-out"], bounds="two left floats in a 200px container: the first 150px wide with symbolic height in [0,20] and margin-bottom in [-20,5] (margin box height >= 0), the second with symbolic width in [10,190]; then a block", quick={"maxsteps": 30000000, "shards": 4})
+H("C02", "html/layout", "VxH_C02_line_floats", reach=["laid-out"], bounds="two block floats (the second 80 / 150px wide, 5 / 15 / 50px high) followed by a paragraph 'xx <tall span> <float> zz' in a 200px body; tall span font size 10 / 20 / 30px, line float width 20 / 100 / 190px; VxAhem font model", quick={"maxsteps": 200000000, "shards": 6})
